@@ -22,7 +22,20 @@ func makeBools() Column {
 
 // Grow grows the size of the column until we have enough to store
 func (c *columnBool) Grow(idx uint32) {
-	c.data.Grow(idx)
+	c.data = growBitmap(c.data, idx)
+}
+
+// growBitmap grows a bitmap which readers of other chunks may be reading without a lock: when
+// the storage must be re-allocated, the new bitmap is published only after it was filled in
+// (bitmap.Grow publishes the zeroed one first and copies afterwards).
+func growBitmap(b bitmap.Bitmap, idx uint32) bitmap.Bitmap {
+	if blkAt := int(idx >> 6); blkAt >= cap(b) {
+		grown := make(bitmap.Bitmap, len(b), (blkAt+1)*5/4)
+		copy(grown, b)
+		b = grown
+	}
+	b.Grow(idx)
+	return b
 }
 
 // Apply applies a set of operations to the column.
